@@ -241,27 +241,28 @@ Fixpoint open_all (abort : bool) (ss : list script) : option (list W * list scri
   end.
 
 (* the `for respHeap.Next()` loop: responses passed to srv.Send, and whether it ended in codes.Aborted *)
-Fixpoint series_loop (abort : bool) (limit : Z) (i : Z) (l : list resp) : list resp * bool :=
+(* [lbreak limit i] is the `r.Limit > 0 && i > int(r.Limit)` test (regenerated from the source, Gen/CNN.v) *)
+Fixpoint series_loop (lbreak : Z -> Z -> bool) (abort : bool) (limit : Z) (i : Z) (l : list resp) : list resp * bool :=
   match l with
   | [] => ([], false)
   | x :: r =>
       let i := (i + 1)%Z in
-      if ((limit >? 0) && (i >? limit))%Z then ([], false)
+      if lbreak limit i then ([], false)
       else match x with
            | RWarn _ => if abort then ([], true)
-                        else let '(o, a) := series_loop abort limit i r in (x :: o, a)
-           | _ => let '(o, a) := series_loop abort limit i r in (x :: o, a)
+                        else let '(o, a) := series_loop lbreak abort limit i r in (x :: o, a)
+           | _ => let '(o, a) := series_loop lbreak abort limit i r in (x :: o, a)
            end
   end.
 
 (* result: None = the request failed (error returned); Some frames = frames received by the client *)
-Definition proxy_series (lazy wrl abort : bool) (rm : L -> L) (limit : Z) (batch : nat) (ss : list script)
+Definition proxy_series (lbreak : Z -> Z -> bool) (lazy wrl abort : bool) (rm : L -> L) (limit : Z) (batch : nat) (ss : list script)
   : option (list frame) :=
   match open_all abort ss with
   | None => None
   | Some (ws, os) =>
       let merged := lt_merge (map (resp_set lazy wrl rm) os) in
-      let '(out, aborted) := series_loop abort limit 0 (dedup None merged) in
+      let '(out, aborted) := series_loop lbreak abort limit 0 (dedup None merged) in
       if aborted then None
       else Some (send_all batch true (map RWarn ws ++ out))
   end.
